@@ -29,6 +29,13 @@ class Unsupported(Exception):
     pass
 
 
+class LoopSignal(Exception):
+    """`break` / `continue` met while a loop body is evaluated by a driver (see simulate_loop)"""
+    def __init__(self, kind: str):
+        super().__init__(kind)
+        self.kind = kind
+
+
 NONE: Term = ("none",)
 INF: Term = ("inf",)
 ZERO: Term = ("add", ())
@@ -345,6 +352,17 @@ class TermEval:
             return neg(self.ev(e.operand))
         if isinstance(e, ast.UnaryOp) and isinstance(e.op, ast.UAdd):
             return self.ev(e.operand)
+        if isinstance(e, ast.UnaryOp) and isinstance(e.op, ast.Not):
+            v = self.ev(e.operand)
+            if v[:2] == ("op", "bool"):
+                return ("op", "bool", not v[2])
+            return v[1] if v[0] == "not" else ("not", v)
+        if isinstance(e, ast.BoolOp):
+            vals = [self.ev(x) for x in e.values]
+            if all(v[:2] == ("op", "bool") for v in vals):
+                bs = [v[2] for v in vals]
+                return ("op", "bool", all(bs) if isinstance(e.op, ast.And) else any(bs))
+            return ("op", "and" if isinstance(e.op, ast.And) else "or") + tuple(vals)
         if isinstance(e, ast.BinOp):
             if isinstance(e.op, ast.Pow):
                 b, p = self.ev(e.left), self.ev(e.right)
@@ -474,6 +492,11 @@ class TermEval:
         elif isinstance(f, ast.Attribute):
             name, operands, kws = f.attr, [f.value] + list(c.args), c.keywords
         else:
+            if fn in ("max", "min") and len(c.args) == 2 and not c.keywords:
+                a, b = sorted((self.ev(c.args[0]), self.ev(c.args[1])), key=_key)
+                return ("op", fn, a, b)
+            if fn in ("float", "bool") and len(c.args) == 1 and not c.keywords:
+                return self.ev(c.args[0])
             return ("op", fn) + tuple(self.ev(a) for a in c.args) + tuple(("op", "kw." + k.arg, self.ev(k.value)) for k in c.keywords)
         if kws and name not in ("masked_fill", "where"):
             return ("op", name) + tuple(self.ev(a) for a in operands) + tuple(("op", "kw." + k.arg, self.ev(k.value)) for k in sorted(kws, key=lambda k: k.arg))
@@ -520,6 +543,9 @@ class TermEval:
                 return fill(b, m_, a)
         if name == "float" and n == 1:
             return self.ev(operands[0])
+        if name in ("max", "min", "maximum", "minimum") and n == 2 and is_torch:
+            a, b = sorted((self.ev(operands[0]), self.ev(operands[1])), key=_key)
+            return ("op", "max" if name.startswith("max") else "min", a, b)
         return ("op", name) + tuple(self.ev(a) for a in operands)
 
     # ------------------------------------------------------------------ tests
@@ -537,15 +563,24 @@ class TermEval:
                     raise Unsupported("None-ness of %s is not known" % other[2])
                 same = other == NONE
                 return same if isinstance(t.ops[0], ast.Is) else not same
-        v = self.ev(t)
+        return self.truth_term(self.ev(t), t)
+
+    def truth_term(self, v: Term, node) -> bool:
         if v == NONE:
             return False
         if v[:2] == ("op", "bool"):
             return bool(v[2])
+        if v[0] == "not":
+            return not self.truth_term(v[1], node)
+        if v[:2] in (("op", "and"), ("op", "or")):
+            vals = [self.truth_term(x, node) for x in v[2:]]
+            return all(vals) if v[1] == "and" else any(vals)
+        if v[0] == "num":
+            return v[1] != 0
         if self.unknown_truth is not None:
             self._assumed = True
-            return self.unknown_truth(v, t)
-        raise Unsupported("test %s" % ast.unparse(t)[:60])
+            return self.unknown_truth(v, node)
+        raise Unsupported("test %s" % ast.unparse(node)[:60])
 
     # ------------------------------------------------------------------ statements
     def bind(self, target, v: Term):
@@ -624,6 +659,10 @@ class TermEval:
                 continue
             elif isinstance(s, (ast.Import, ast.ImportFrom)):
                 continue
+            elif isinstance(s, ast.Continue):
+                raise LoopSignal("continue")
+            elif isinstance(s, ast.Break):
+                raise LoopSignal("break")
             elif isinstance(s, (ast.For, ast.While)):
                 # a loop is not unrolled: every name it stores to (or stores into) holds an unknown value afterwards
                 for n in ast.walk(s):
@@ -644,3 +683,76 @@ class TermEval:
             else:
                 raise Unsupported("statement %s" % type(s).__name__)
         return False
+
+
+class NeedChoice(Exception):
+    def __init__(self, key):
+        super().__init__(key)
+        self.key = key
+
+
+def consistent(choices: Dict[Term, bool]) -> bool:
+    """can the chosen outcomes of comparisons of one term with numeric constants hold together? (x < 1 false and x == 0 true cannot)"""
+    by: Dict[Term, list] = {}
+    for k, val in choices.items():
+        if k[0] == "cmp" and k[3][0] == "num" and k[2][0] != "num":
+            by.setdefault(k[2], []).append((k[1], k[3][1], val))
+        elif k[0] == "cmp" and k[2][0] == "num" and k[3][0] != "num":
+            flip = {"<": ">", "<=": ">=", "==": "==", "!=": "!="}[k[1]]
+            by.setdefault(k[3], []).append((flip, k[2][1], val))
+    ops = {"<": lambda x, c: x < c, "<=": lambda x, c: x <= c, ">": lambda x, c: x > c, ">=": lambda x, c: x >= c,
+           "==": lambda x, c: x == c, "!=": lambda x, c: x != c}
+    for _t, cons in by.items():
+        pts = set()
+        for _op, c, _v in cons:
+            pts |= {c, c - Fraction(1, 2), c + Fraction(1, 2)}
+        if not any(all(ops[op](x, c) == v for op, c, v in cons) for x in pts):
+            return False
+    return True
+
+
+def simulate_loop(pre, loop, post, env: Dict[str, Term], choices: Dict[Term, bool], functions=None, max_trips: int = 3):
+    """evaluate `pre; while <loop.test>: <loop.body>; post` over terms, deciding every test the terms leave open from `choices`
+    (keyed by the test's term; a missing key raises NeedChoice).  Returns ("return", term) | ("no return", None) |
+    ("unfinished", None) when the loop is still running after max_trips trips."""
+    def decide(term, node):
+        if term not in choices:
+            raise NeedChoice(term)
+        return choices[term]
+    ev = TermEval(env, decide, functions)
+    if ev.run(pre):
+        return "return", ev.returned
+    for _trip in range(max_trips):
+        if not ev.truth(loop.test):
+            break
+        try:
+            if ev.run(loop.body):
+                return "return", ev.returned
+        except LoopSignal as sig:
+            if sig.kind == "break":
+                break
+    else:
+        if ev.truth(loop.test):
+            return "unfinished", None
+    if ev.run(post):
+        return "return", ev.returned
+    return "no return", None
+
+
+def all_outcomes(run, max_choices: int = 10):
+    """run(choices) -> outcome, raising NeedChoice; enumerates the consistent choice vectors lazily: [(choices, outcome)]"""
+    out = []
+    pending = [dict()]
+    while pending:
+        ch = pending.pop()
+        try:
+            out.append((ch, run(ch)))
+        except NeedChoice as need:
+            if len(ch) >= max_choices:
+                raise Unsupported("more than %d tests the terms do not decide" % max_choices)
+            for v in (True, False):
+                c2 = dict(ch)
+                c2[need.key] = v
+                if consistent(c2):
+                    pending.append(c2)
+    return out
